@@ -87,7 +87,14 @@ def c18_2(ctx, ss):
                                                  f"{cls_}.{m} loops over self.list_structure(final_states)" if ok
                                                  else f"{cls_}.{m} loops over `{txt(flow.expand(loops[0].iter))[:80] if loops else None}`")
             if loops:
-                ex = [x for x in ast.walk(loops[0]) if isinstance(x, (ast.Break, ast.Continue))]
+                # no permutation is skipped: no `break`, and a `continue` only as the end of a branch that already emitted its
+                # line for this permutation (e.g. the "not implemented" comment line, written as a guard clause)
+                ex = [x for x in ast.walk(loops[0]) if isinstance(x, ast.Break)]
+                for cn in [x for x in ast.walk(loops[0]) if isinstance(x, ast.Continue)]:
+                    blk = next((b for n in ast.walk(loops[0]) for b in (getattr(n, "body", None), getattr(n, "orelse", None)) if isinstance(b, list) and any(cn is y for y in b)), [])
+                    emitted = any(isinstance(y, ast.Expr) and isinstance(y.value, ast.Call) and isinstance(y.value.func, ast.Attribute) and y.value.func.attr == "append" for y in blk)
+                    if not emitted or enclosing(ff, cn, (ast.For,))[0] is not loops[0]:
+                        ex.append(cn)
                 if ex:
                     ctx.violation("C18.2", k + " :: early-exit", where(ff, ex[0]), f"{cls_}.{m}: the permutation loop can end early / skip permutations")
         ff, flow = fn(ss, GOOFIT, f"{cls_}.make_amplitude")
@@ -116,77 +123,91 @@ def c18_2(ctx, ss):
 MASS_SPEC = {"FF_12_34": [(0, 1), (2, 3)], "other": [(0, 1, 2), (0, 1)]}
 
 
+def _one_based(e, flow, pv, keep):
+    """k when `e` denotes position k of the loop's permutation `pv`, counted from 1:  pv[k] + 1, or Q[k] with Q = the
+    permutation shifted by one (tuple / list of x + 1 for x in pv)."""
+    if isinstance(e, ast.BinOp) and isinstance(e.op, ast.Add) and isinstance(e.right, ast.Constant) and e.right.value == 1 \
+            and isinstance(e.left, ast.Subscript) and isinstance(e.left.value, ast.Name) and e.left.value.id == pv and isinstance(e.left.slice, ast.Constant):
+        return e.left.slice.value
+    if isinstance(e, ast.Subscript) and isinstance(e.slice, ast.Constant) and isinstance(e.slice.value, int):
+        q = flow.expand(e.value, keep=keep)
+        if isinstance(q, ast.Call) and txt(q.func) in ("tuple", "list") and len(q.args) == 1:
+            q = q.args[0]
+        if isinstance(q, (ast.ListComp, ast.GeneratorExp)) and len(q.generators) == 1 and not q.generators[0].ifs and txt(q.generators[0].iter) == pv \
+                and txt(q.elt) in (f"__elem__({pv}) + 1", f"1 + __elem__({pv})"):
+            return e.slice.value
+    return None
+
+
 def c18_3(ctx, ss):
+    from .common import case_of
     for cls_ in CH:
         ff, flow = fn(ss, GOOFIT, f"{cls_}.make_linefactor")
         loops = [n for n in pf.walk_no_nested(ff.node) if isinstance(n, ast.For) and not enclosing(ff, n, (ast.For,))]
         if len(loops) != 1 or not isinstance(loops[0].target, ast.Name):
             raise AnchorMissing(f"{cls_}.make_linefactor: permutation loop not found")
-        lp = loops[0]
-        pv = lp.target.id
+        pv = loops[0].target.id
         k = ckey(ff, None, "masses")
-        # mass definitions
-        got = {"FF_12_34": {}, "other": {}}
-        # roles: the two-element list indexed in the make_lineshape call holds the two mass-name locals, in order
-        ml_all = [c for c in pf.calls_in(lp) if isinstance(c.func, ast.Attribute) and c.func.attr == "make_lineshape"]
-        masses_name, mass_names = None, []
-        if ml_all and len(ml_all[0].args) == 2 and isinstance(ml_all[0].args[1], ast.Subscript) and isinstance(ml_all[0].args[1].value, ast.Name):
-            masses_name = ml_all[0].args[1].value.id
-            md = [d for d in flow.defs if d.name == masses_name and d.kind == "assign"]
-            if len(md) == 1 and isinstance(md[0].value, ast.List) and all(isinstance(e, ast.Name) for e in md[0].value.elts):
-                mass_names = [e.id for e in md[0].value.elts]
-        if len(mass_names) != 2 and masses_name is not None:
-            md = [d for d in flow.defs if d.name == masses_name and d.kind == "assign"]
-            if md and all(isinstance(d.value, (ast.Dict, ast.DictComp)) or (isinstance(d.value, ast.Call) and txt(d.value.func) == "dict") for d in md):
-                a1 = ml_all[0].args[1]
-                ctx.violation("C18.3", k + " :: pairing", where(ff, ml_all[0]),
-                              f"{cls_}: the invariant mass handed to a vertex's line shape is looked up by `{txt(a1.slice)}` in a dictionary, not by the vertex's position: "
+        # Case analysis on the topology: the function is specialised to FF_12_34 / the cascade topology and the invariant-mass
+        # names that reach make_lineshape are read from the straight-line result (locals, a per-branch list literal, a shifted
+        # copy of the permutation … all give the same facts).
+        for branch, is_1234 in (("FF_12_34", True), ("other", False)):
+            def atom(e, is_1234=is_1234):
+                return is_1234 if txt(e) == "self.decay_structure == DecayStructure.FF_12_34" else None
+            cf, cflow = case_of(ss, ff, flow, atom, branch)
+            lp = [n for n in pf.walk_no_nested(cf.node) if isinstance(n, ast.For) and not enclosing(cf, n, (ast.For,))][0]
+            ml = [c for c in pf.calls_in(lp) if isinstance(c.func, ast.Attribute) and c.func.attr == "make_lineshape"]
+            kk = k + f" :: {branch}"
+            if len(ml) != 1 or len(ml[0].args) != 2:
+                raise AnchorMissing(f"{cls_}.make_linefactor [{branch}]: the single make_lineshape(permutation, mass) call was not found")
+            c = ml[0]
+            inner = [n for n in enclosing(cf, c, (ast.For,)) if n is not lp]
+            KEEP = {pv} | ({x.id for x in ast.walk(inner[0].target) if isinstance(x, ast.Name)} if inner else set())
+            m = cflow.expand(c.args[1], keep=KEEP)
+            if isinstance(m, ast.Subscript) and isinstance(m.value, ast.Dict):
+                ctx.violation("C18.3", k + " :: pairing", where(cf, c),
+                              f"{cls_}: the invariant mass handed to a vertex's line shape is looked up by `{txt(m.slice)}` in a dictionary, not by the vertex's position: "
                               "two vertexes with the same key (an amplitude with the same resonance twice) get the same mass")
                 continue
-        if len(mass_names) != 2:
-            raise AnchorMissing(f"{cls_}.make_linefactor: the [mass1, mass2] list handed to make_lineshape was not found")
-        for d in [d for d in flow.defs if d.kind == "assign" and isinstance(d.value, ast.JoinedStr) and d.name in mass_names]:
-            conds = [(txt(e), pol) for kind, e, pol in guards.path_conditions(lp, d.stmt) if kind == "if"]
-            branch = None
-            if conds == [("self.decay_structure == DecayStructure.FF_12_34", True)]:
-                branch = "FF_12_34"
-            elif conds == [("self.decay_structure == DecayStructure.FF_12_34", False)]:
-                branch = "other"
-            idxs = []
-            okf = True
-            for p in d.value.values:
-                if isinstance(p, ast.FormattedValue):
-                    e = p.value
-                    if isinstance(e, ast.BinOp) and isinstance(e.op, ast.Add) and isinstance(e.right, ast.Constant) and e.right.value == 1 \
-                            and isinstance(e.left, ast.Subscript) and isinstance(e.left.value, ast.Name) and e.left.value.id == pv and isinstance(e.left.slice, ast.Constant):
-                        idxs.append(e.left.slice.value)
-                    else:
-                        okf = False
-            consts = "".join(p.value for p in d.value.values if isinstance(p, ast.Constant))
-            if branch is None or not okf:
-                ctx.violation("C18.3", k + f" :: {d.name}", where(ff, d.stmt), f"{cls_}: `{txt(d.stmt)[:80]}` does not interpolate positions of the loop's own permutation (+1) under the topology test")
+            d_ = [d for d in cflow.defs if isinstance(c.args[1], ast.Subscript) and isinstance(c.args[1].value, ast.Name) and d.name == c.args[1].value.id and d.kind == "assign"]
+            if d_ and all(isinstance(d.value, (ast.Dict, ast.DictComp)) or (isinstance(d.value, ast.Call) and txt(d.value.func) == "dict") for d in d_):
+                ctx.violation("C18.3", k + " :: pairing", where(cf, c),
+                              f"{cls_}: the invariant mass handed to a vertex's line shape is looked up by `{txt(c.args[1].slice)}` in a dictionary, not by the vertex's position: "
+                              "two vertexes with the same key (an amplitude with the same resonance twice) get the same mass")
+                continue
+            if not (isinstance(m, ast.Subscript) and isinstance(m.value, (ast.List, ast.Tuple)) and len(m.value.elts) == 2):
+                raise AnchorMissing(f"{cls_}.make_linefactor [{branch}]: the pair of mass names handed to make_lineshape was not found (`{txt(m)[:60]}`)")
+            seq, bad = [], None
+            for el in m.value.elts:
+                if not isinstance(el, ast.JoinedStr):
+                    bad = el
+                    break
+                idxs = []
+                for p_ in el.values:
+                    if isinstance(p_, ast.FormattedValue):
+                        i_ = _one_based(p_.value, cflow, pv, KEEP)
+                        if i_ is None:
+                            bad = p_.value
+                        idxs.append(i_)
+                seq.append(tuple(idxs))
+            if bad is not None:
+                ctx.violation("C18.3", kk, where(cf, c), f"{cls_} [{branch}]: `{txt(bad)[:60]}` in a mass name is not a position of the loop's own permutation (+1)")
+            elif seq == MASS_SPEC[branch]:
+                ctx.holds("C18.3", kk, where(cf, c), f"{cls_} [{branch}]: mass indices {seq}", len(seq))
             else:
-                got[branch][d.name] = (tuple(idxs), consts)
-        for branch, spec in MASS_SPEC.items():
-            seq = [got[branch][n][0] for n in mass_names if n in got[branch]]
-            kk = k + f" :: {branch}"
-            if seq == spec:
-                ctx.holds("C18.3", kk, where(ff, lp), f"{cls_} [{branch}]: mass indices {seq}", len(seq))
-            else:
-                ctx.violation("C18.3", kk, where(ff, lp), f"{cls_} [{branch}]: invariant-mass indices are {seq}, expected {spec} (mass of the wrong particle pair / another permutation's positions)")
-        # pairing vertex i <-> mass i, and the permutation handed to make_lineshape
-        inner = [n for n in ast.walk(lp) if isinstance(n, ast.For) and n is not lp]
-        okp = False
-        if len(inner) == 1 and isinstance(inner[0].iter, ast.Call) and txt(inner[0].iter.func) == "enumerate" and txt(inner[0].iter.args[0]) == "self.vertexes" \
-                and isinstance(inner[0].target, ast.Tuple):
-            i_name, v_name = (e.id for e in inner[0].target.elts)
-            ml = [c for c in pf.calls_in(inner[0]) if isinstance(c.func, ast.Attribute) and c.func.attr == "make_lineshape"]
-            okp = len(ml) == 1 and txt(ml[0].func.value) == v_name and len(ml[0].args) == 2 and txt(ml[0].args[0]) == pv and txt(ml[0].args[1]) == f"{masses_name}[{i_name}]"
-            apps = [c for c in pf.calls_in(inner[0]) if isinstance(c.func, ast.Attribute) and c.func.attr == "append"]
-            okp = okp and len(apps) == 1 and not any(isinstance(x, (ast.If, ast.Break, ast.Continue)) for x in ast.walk(inner[0]))
-        (ctx.holds if okp else ctx.violation)("C18.3", k + " :: pairing", where(ff, inner[0] if inner else lp),
-                                              f"{cls_}: the i-th vertex gets masses[i] and this permutation; one line shape per vertex" if okp
-                                              else f"{cls_}: vertexes and masses are not paired index by index with the loop's permutation (or a vertex can be skipped)")
+                ctx.violation("C18.3", kk, where(cf, c), f"{cls_} [{branch}]: invariant-mass indices are {seq}, expected {MASS_SPEC[branch]} (mass of the wrong particle pair / another permutation's positions)")
+            # pairing vertex i <-> mass i, and the permutation handed to make_lineshape
+            okp = False
+            if len(inner) == 1 and isinstance(inner[0].iter, ast.Call) and txt(inner[0].iter.func) == "enumerate" and txt(inner[0].iter.args[0]) == "self.vertexes" \
+                    and isinstance(inner[0].target, ast.Tuple) and len(inner[0].target.elts) == 2:
+                i_name, v_name = (e.id for e in inner[0].target.elts)
+                okp = txt(c.func.value) == v_name and txt(c.args[0]) == pv and txt(m.slice) == i_name
+                apps = [x for x in pf.calls_in(inner[0]) if isinstance(x.func, ast.Attribute) and x.func.attr == "append"]
+                okp = okp and len(apps) == 1 and not any(isinstance(x, (ast.If, ast.Break, ast.Continue)) for x in ast.walk(inner[0]))
+            if branch == "FF_12_34":
+                (ctx.holds if okp else ctx.violation)("C18.3", k + " :: pairing", where(cf, inner[0] if inner else lp),
+                                                      f"{cls_}: the i-th vertex gets masses[i] and this permutation; one line shape per vertex" if okp
+                                                      else f"{cls_}: vertexes and masses are not paired index by index with the loop's permutation (or a vertex can be skipped)")
     # spin factors carry the loop's permutation
     for cls_ in CH:
         ff, flow = fn(ss, GOOFIT, f"{cls_}.make_spinfactor")
@@ -205,13 +226,16 @@ def c18_3(ctx, ss):
     if len(loops) == 1 and txt(loops[0].iter) == "self.daughters" and isinstance(loops[0].target, ast.Name):
         d = loops[0].target.id
         apps = [c for c in pf.calls_in(loops[0]) if isinstance(c.func, ast.Attribute) and c.func.attr == "append" and txt(c.args[0]) == d]
-        augs = [a for a in ast.walk(loops[0]) if isinstance(a, ast.AugAssign) and txt(a.value) == f"{d}.vertexes"]
+        from .common import list_extensions
+        augs = [(st_, tg_, v_) for st_, tg_, v_ in list_extensions(loops[0]) if txt(v_) == f"{d}.vertexes"]
         if len(apps) == 1 and len(augs) == 1:
             c1 = [(txt(e), pol) for kind, e, pol in guards.path_conditions(loops[0], stmt_of(vf, apps[0])) if kind == "if"]
-            c2 = [(txt(e), pol) for kind, e, pol in guards.path_conditions(loops[0], augs[0]) if kind == "if"]
+            c2 = [(txt(e), pol) for kind, e, pol in guards.path_conditions(loops[0], augs[0][0]) if kind == "if"]
             r = returns(vf)
-            okv = c1 == [(f"{d}.is_vertex()", True)] and c2 == c1 and txt(apps[0].func.value) == txt(augs[0].target) \
-                and len(r) == 1 and txt(r[0].value) == txt(augs[0].target) and not any(isinstance(x, (ast.Break, ast.Continue)) for x in ast.walk(loops[0]))
+            cfg_ = vflow.cfg
+            order = cfg_.reachable(cfg_.node_of(stmt_of(vf, apps[0])), cfg_.node_of(augs[0][0]), avoid={cfg_.node_of(loops[0])})     # the daughter first, then what is below it
+            okv = c1 == [(f"{d}.is_vertex()", True)] and c2 == c1 and txt(apps[0].func.value) == txt(augs[0][1]) and order \
+                and len(r) == 1 and txt(r[0].value) == txt(augs[0][1]) and not any(isinstance(x, ast.Break) for x in ast.walk(loops[0]))
     (ctx.holds if okv else ctx.violation)("C18.3", ckey(vf, None, "vertexes"), where(vf, vf.node), "vertexes = every two-body sub-decay, depth first" if okv else "ModelDecay.vertexes changed shape")
 
 
